@@ -1005,7 +1005,7 @@ def run(ctx, res):
     projects = []
     for w in load_witnesses():
         projects.append((w, w.get("orders")))
-    n = 160 if ctx.tier == "thorough" else 12
+    n = 120 if ctx.tier == "thorough" else 12
     for _ in range(n):
         projects.append((gen_project(rng, stats), None))
     thorough = ctx.tier == "thorough"
